@@ -216,7 +216,12 @@ where
     let mut plus_section = |n: usize, offset: &mut usize| {
         get_section(n, &mut plus_line_offset, offset, &alignment.y, plus_line)
     };
-    let distance_contribution = |section: &str| UnicodeWidthStr::width(section.trim());
+    // A changed section that is not blank always counts: zero-width characters (U+200B, a lone
+    // combining mark) would otherwise make differing lines look identical to the pairing test.
+    let distance_contribution = |section: &str| {
+        let trimmed = section.trim();
+        UnicodeWidthStr::width(trimmed).max(usize::from(!trimmed.is_empty()))
+    };
 
     let (mut minus_op_prev, mut plus_op_prev) = (noop_deletion, noop_insertion);
     for (op, n) in alignment.coalesced_operations() {
